@@ -1120,6 +1120,11 @@ class Interp:
                 return _pycmp(op, a, b)
             except TypeError:
                 self.raise_('TypeError')
+        # a Python set display compared with a symbolic set takes the type of the symbolic side
+        if isinstance(a, SV) and a.typ.kind == 'Set' and isinstance(b, (set, frozenset)):
+            b = lift(b, a.typ)
+        if isinstance(b, SV) and b.typ.kind == 'Set' and isinstance(a, (set, frozenset)):
+            a = lift(a, b.typ)
         a = a if isinstance(a, SV) else lift(a)
         b = b if isinstance(b, SV) else lift(b)
         if a.typ.kind == 'Bool':
